@@ -128,27 +128,33 @@ theorem AddsA.getS_with {β} {n : Nat} {f : State → M β} (h : ∀ s, s.id.add
 theorem AddsA.applyUpdate (u : Member) (b : Bool) : AddsA a k 0 (Foca.applyUpdate E u b) :=
   AddsA.of (Adds.applyUpdate E u b) ((AddrIs.base E a).applyUpdate _ _ trivial)
 
-/-- the cost of one update: a round of gossip if it names the own address, nothing otherwise -/
-def selfCost (a k : Nat) (u : Member) : Nat := if u.id.addr = a then k else 0
+/-- the cost of one update: a round of gossip if it names the own address and is not an Alive claim, nothing
+    otherwise -/
+def selfCost (a k : Nat) (u : Member) : Nat := if u.id.addr = a ∧ u.st ≠ .alive then k else 0
 
-/-- the updates of a list that name address `a` -/
-def selfUpdates (a : Nat) (us : List Member) : Nat := us.countP (fun u => u.id.addr == a)
+/-- the updates of a list that name address `a` as Suspect or Down -/
+def selfUpdates (a : Nat) (us : List Member) : Nat := us.countP (fun u => u.id.addr == a && u.st != .alive)
 
 theorem AddsA.applyOne (u : Member) (b : Bool) : AddsA a k (selfCost a k u) (Foca.applyOne E u b) := by
-  by_cases hu : u.id.addr = a
+  by_cases hu : u.id.addr = a ∧ u.st ≠ .alive
   · have : selfCost a k u = k := by simp [selfCost, hu]
     rw [this]
     exact AddsA.of (Adds.applyOne E u b) (AddrIs.applyOne E a u b)
-  · have : selfCost a k u = 0 := by simp [selfCost, hu]
+  · have : selfCost a k u = 0 := by simp only [selfCost, hu, if_false]
     rw [this]
     unfold Foca.applyOne
     refine AddsA.getS_with (fun s hs _ => ?_)
     split
     · rename_i heq
-      exfalso
-      have : u.id = s.id := by simpa using heq
-      rw [this] at hu
-      exact hu hs
+      have hid : u.id = s.id := by simpa using heq
+      have hst : u.st = .alive := by
+        cases hst : u.st with
+        | alive => rfl
+        | suspect => exact absurd ⟨by rw [hid]; exact hs, by rw [hst]; simp⟩ hu
+        | down => exact absurd ⟨by rw [hid]; exact hs, by rw [hst]; simp⟩ hu
+      unfold Foca.handleSelfUpdate
+      rw [hst]
+      exact AddsA.pure _
     · split
       · exact AddsA.bind (AddsA.applyUpdate E _ _) (fun _ => AddsA.pure (n := 0) _) (by omega)
       · exact AddsA.bind (AddsA.applyUpdate E _ _) (fun _ => AddsA.pure (n := 0) _) (by omega)
@@ -161,9 +167,17 @@ theorem AddsA.applyLoop (b : Bool) (us : List Member) :
     unfold Foca.applyLoop
     refine AddsA.bind (AddsA.applyOne E u b) (fun _ => ih) ?_
     unfold selfUpdates selfCost
-    by_cases hu : u.id.addr = a
-    · simp [hu, Nat.mul_add]; omega
-    · simp [hu]
+    by_cases hu : u.id.addr = a ∧ u.st ≠ .alive
+    · have : (u.id.addr == a && u.st != .alive) = true := by simp [hu.1, hu.2]
+      rw [if_pos hu, List.countP_cons, this]; simp only [if_true, Nat.mul_add]; omega
+    · have : (u.id.addr == a && u.st != .alive) = false := by
+        cases h : (u.id.addr == a && u.st != .alive) with
+        | false => rfl
+        | true =>
+          exfalso; apply hu
+          simp only [Bool.and_eq_true, beq_iff_eq, bne_iff_ne, ne_eq] at h
+          exact h
+      rw [if_neg hu, List.countP_cons, this]; simp
 
 theorem AddsA.applyMany (us : List Member) (b : Bool) :
     AddsA a k (k * selfUpdates a us) (Foca.applyMany E us b) := by
@@ -171,7 +185,7 @@ theorem AddsA.applyMany (us : List Member) (b : Bool) :
   exact AddsA.bind (AddsA.applyLoop E b us) (fun _ => AddsA.of (Adds.adjustConnectionState E (n := 0))
     (AddrIs.base E a).adjustConnectionState) (by omega)
 
-/-- the updates of a datagram that name address `a` (0 when it does not parse) -/
+/-- the updates of a datagram that name address `a` as Suspect or Down (0 when it does not parse) -/
 def selfUpdatesIn (a : Nat) (data : Bytes) : Nat :=
   match E.codec.decHeader data with
   | none => 0
@@ -312,6 +326,25 @@ theorem Cnt.handleData (data : Bytes) :
               · refine Cnt.bindA (AddsA.applyMany E _ _) (fun _ => ?_)
                   (Nat.le_of_eq (n := k * selfUpdates a updates + (k * tuCost h.msg + 1)) (by rw [Nat.mul_add]; omega))
                 exact Cnt.of_adds (Adds.bind0 (Adds.attempt (Adds.handleCustomBroadcasts E _ _)) (fun _ => Adds.replyStage' E _ _))
+
+/-- … for one public call -/
+theorem step_selfCount (s : State) (data : Bytes) (orc : Oracle) :
+    match Foca.step E s (.data data) orc with
+    | .done _ eff _ _ => sendCount eff ≤ s.cfg.k * (selfUpdatesIn E s.id.addr data + isTurnUndead E data) + 1
+    | .stuck _ => True := by
+  have := (Cnt.handleData (a := s.id.addr) (k := s.cfg.k) E data).run ⟨s, [], orc⟩ rfl rfl
+  unfold CntPost at this
+  unfold Foca.step Foca.runOp
+  simp only [bind_run]
+  cases hr : handleData E data ⟨s, [], orc⟩ with
+  | stuck x => trivial
+  | ok u c' =>
+    rw [hr] at this
+    simp only [pure_run]
+    simpa only [sendCount, List.countP_nil, Nat.zero_add] using this
+  | err e c' =>
+    rw [hr] at this
+    simpa only [sendCount, List.countP_nil, Nat.zero_add] using this
 
 end
 end Foca
